@@ -4,6 +4,7 @@ import HbsModel.Props.C02
 import HbsModel.Props.C10
 import HbsModel.Lemmas.Assoc
 import HbsModel.Lemmas.CallTag
+import HbsModel.Lemmas.CompileCallName
 /-
   C18  A render error points at the tag that failed.
 -/
@@ -414,6 +415,59 @@ theorem unknown_helper_points_at_the_tag (r : Registry) (fs : FS) (name L R : St
     simp [renderElem, renderExpression, renderHelper, helperFromTemplate, PlainText.callHT, HelperG.new, HelperG.isNameOnly, expandAsName,
       expandParams, expandParam, expandHash, RM.bnd_apply, hl, hh', hk']
   generalize hlc : Pest.lineCol (L ++ PlainText.callSrc ++ R) L.length = lc
+  generalize (if R = [] then [] else [Elem.raw R]) = tail
+  have hf : renderFuel = (3991 + 6) + 1 + 1 + 1 := by decide
+  unfold runRM
+  by_cases hLe : L = []
+  · subst hLe
+    have herr := hreg { ({ rootTemplate := some name } : RC) with currentTemplate := some name } {} (3991 + 1) rfl
+    rw [hf]
+    simp only [PlainText.leftT, ↓reduceIte, Tmpl.empty, Tmpl.elements, Tmpl.mapping, Tmpl.name, List.nil_append, List.cons_append,
+      renderTemplate, renderElems, RM.bind_def, RM.bnd_apply, RM.get_apply, RM.modifyAux_apply, RM.mapErr, herr]
+    simp [decorateRender, RenderError.of, Out.text]
+  · have hwr := indentAwareWrite_plain L { ({ rootTemplate := some name } : RC) with currentTemplate := some name } {} hLe rfl (by simp)
+    have herr := hreg { rootTemplate := some name, currentTemplate := some name, contentProduced := true, trailingNewline := endsWithNewline L, indentBeforeWrite := endsWithNewline L } { segs := [L], count := 1 } 3991 rfl
+    rw [hf]
+    simp only [PlainText.leftT, hLe, ↓reduceIte, Tmpl.elements, Tmpl.mapping, Tmpl.name, List.nil_append, List.cons_append,
+      renderTemplate, renderElems, renderElem, RM.bind_def, RM.bnd_apply, RM.get_apply, RM.modifyAux_apply, RM.mapErr, hwr, List.drop]
+    simp only [renderElem] at herr
+    simp only [herr]
+    simp [decorateRender, RenderError.of, Out.text]
+
+
+/-- **… for EVERY helper name**: `L ++ {{name 1}} ++ R` with no helper `name` and no hook fails with HelperNotFound(name) at the
+    line and column of the tag's `{{`, after exactly `L` was written – for every identifier (any run of the grammar's
+    `symbol_char` class that does not begin with `else`). -/
+theorem unknown_named_helper_points_at_the_tag (r : Registry) (fs : FS) (nm name L R : Str) (data : Json) (hnm : PlainText.IdentName nm)
+    (hdev : r.dev = false)
+    (hL : L = [] ∨ PlainText.TextBeforeTag L) (hR : PlainText.noOpen R)
+    (hnohelper : assocGet r.helpers nm = none) (hnohook : assocGet r.helpers HELPER_MISSING = none) :
+    ∃ r', r.registerTemplateString name (L ++ PlainText.callNSrc nm ++ R) = .ok r' ∧
+      r'.render fs name data = .err
+        { reason := .helperNotFound nm, name := some name,
+          line := some (Pest.lineCol (L ++ PlainText.callNSrc nm ++ R) L.length).1, col := some (Pest.lineCol (L ++ PlainText.callNSrc nm ++ R) L.length).2 } L := by
+  obtain ⟨extra, hcomp⟩ := PlainText.compile_text_callN_text_pos nm L _ _ { name := some name, isPartial := false, preventIndent := r.preventIndent }
+    hnm hL (PlainText.textAfterTag_split R hR)
+  rw [← PlainText.split_ws R] at hcomp
+  unfold Registry.registerTemplateString
+  rw [hcomp]
+  refine ⟨_, rfl, ?_⟩
+  generalize hT : Tmpl.mk (some name) ((PlainText.leftT L L).elements ++ [Elem.expr (PlainText.callNHT nm)] ++ if R = [] then [] else [Elem.raw R])
+    ((PlainText.leftT L L).mapping ++ [Pest.lineCol (L ++ PlainText.callNSrc nm ++ R) L.length] ++ extra) = T
+  have hload : (r.registerTemplate name T).getOrLoad fs name = .ok T := by
+    simp [Registry.getOrLoad, Registry.getOrLoadOptional, Registry.registerTemplate, hdev, assocInsert, assocGet_insert_same]
+  have hdev' : (r.registerTemplate name T).dev = false := by simp [Registry.registerTemplate, hdev]
+  have hh' : assocGet (r.registerTemplate name T).helpers nm = none := by simp [Registry.registerTemplate, hnohelper]
+  have hk' : assocGet (r.registerTemplate name T).helpers HELPER_MISSING = none := by simp [Registry.registerTemplate, hnohook]
+  generalize r.registerTemplate name T = reg at *
+  simp only [Registry.render, Registry.renderToOutput, hload, Registry.renderResolved, hdev', Bool.not_false, ↓reduceIte]
+  subst hT
+  have hreg : ∀ (rc : RC) (out : Out) (fuel : Nat), assocGet rc.localHelpers nm = none →
+      renderElem reg data (fuel + 6) (.expr (PlainText.callNHT nm)) rc out = .err (.of (.helperNotFound nm)) out := by
+    intro rc out fuel hl
+    simp [renderElem, renderExpression, renderHelper, helperFromTemplate, PlainText.callNHT, HelperG.new, HelperG.isNameOnly, expandAsName,
+      expandParams, expandParam, expandHash, RM.bnd_apply, hl, hh', hk']
+  generalize hlc : Pest.lineCol (L ++ PlainText.callNSrc nm ++ R) L.length = lc
   generalize (if R = [] then [] else [Elem.raw R]) = tail
   have hf : renderFuel = (3991 + 6) + 1 + 1 + 1 := by decide
   unfold runRM
